@@ -198,7 +198,7 @@ func c15(r *Run) {
 		}
 	}
 	// the descriptor is closed by the finalizer, which always runs once the callbacks run (C05.R11)
-	r.borrow([]string{"C05.R11:runner-completes", "C05.R8:finalizer-complete:netFD.Close"}, "C05.R", "C15.R3.teardown.", func() { c05(r) })
+	r.borrow([]string{"C05.R11:runner-completes", "C05.R5:walk-is-complete", "C05.R8:finalizer-complete:netFD.Close"}, "C05.R", "C15.R3.teardown.", func() { c05(r) })
 	// once a netFD was handed to a connection (init copies it, register() closes it on failure) the dial path does not
 	// close it again through its own copy
 	for _, name := range []string{"(*sysDialer).dialTCP", "(*sysDialer).dialUnix"} {
